@@ -56,7 +56,7 @@ class C11(Check):
         "CorrData/RedshiftData/HistData through .dat/.smp (1..8 bins, 1..12 samples, NaN/inf, magnitudes 1e-9..1e12) "
         "against a decimal-based field oracle, Metadata through YAML, catalogs through their cache directory; "
         "non-trivial = object written, read back and compared member by member; distinct = (kind, seed)"
-        ' Further classes: auto containers with two different weight arrays, patch selections in any order before the round trip, centres in any RA convention, numpy-typed and single-precision parameters, sibling prefixes, getter values and types of created vs reopened catalogs.'
+        ' Further classes: HDF5 files written over an earlier product with more members, auto containers with two different weight arrays, patch selections in any order before the round trip, centres in any RA convention, numpy-typed and single-precision parameters, sibling prefixes, getter values and types of created vs reopened catalogs.'
     )
     assumptions = [
         "the fixed-width text field holds round(x, 10 decimals) cut to 10 characters; generated bins are wider than "
